@@ -283,7 +283,7 @@ CHECKS = {
     "C16": dict(
         text="PARTIAL. model/Direct.v = write() (clear ack, enqueue, wait, re-raise) x printcore queue/sender thread x FIFO device x "
              "reader callback; runs = all interleavings. Proved: C16_order (device receive log ++ queue == statements written, call "
-             "order, exactly once, for every device behaviour), C16_sync + C16_return_after_own_ack + C16_readings_available (from a quiescent start, any latency, "
+             "order, exactly once, for every device behaviour), C16_sync + C16_return_after_own_ack + C16_readings_available (from a quiescent start, any latency, unsolicited error lines handled between statements, "
              "any unsolicited status lines, error replies anywhere: write() completes only after the terminator of its own statement was "
              "handled; whenever no write is in progress everything is sent and acknowledged = what disconnect(wait) waits for), "
              "C16_error_surfaces / C16_raises_only_on_error (an error/alarm/!! line makes the next completing write raise; no raise "
@@ -292,7 +292,7 @@ CHECKS = {
              "printcore threads over a fake FIFO serial device; each loss-free trace must be a run of the model (check_trace in Coq); "
              "oracle with tagged acknowledgements for order / return-after-own-ack / errors / readings / connection loss.",
         note=TB + "Partial: atomic steps (threading.Event/Queue, scheduler, timeouts not modelled); synchrony needs a quiescent "
-                  "start and no unsolicited error line during a wait; statements abstract (strip/encode tied by correspondence); "
+                  "start and no unsolicited error line handled during a wait (C16_refuted_alarm_during_wait); statements abstract (strip/encode tied by correspondence); "
                   "socket mode shares the writer code and is not run separately. Known finding (known_findings.json): stale ok "
                   "of the trailing M110 (the non-ASCII hang was repaired: fix 5f6969b). No axioms.",
         technique="Rocq proofs (inductive invariants over all interleavings of a 4-party transition system) + trace-acceptance correspondence (vm_compute) against the real threads + oracle",
